@@ -3,6 +3,7 @@ package main
 import (
 	"fmt"
 	"math"
+	"math/big"
 	"strings"
 	"time"
 
@@ -107,6 +108,9 @@ func genTicks(n int, c brkCfg, start int64) []int64 {
 		if mode == 1 {
 			d = []int64{0, 1, c.interval}[rng.Intn(3)]
 		}
+		if (d > 0 && t > math.MaxInt64-d) || (d < 0 && t < math.MinInt64-d) {
+			d = 0 // the ticker itself never wraps
+		}
 		t += d
 		ts[i] = t
 	}
@@ -124,6 +128,12 @@ func i64s(v []int64) string {
 	return strings.Join(s, ",")
 }
 
+// exact (non-wrapping) arithmetic of the documented machine
+func bsum(a, b int64) *big.Int { return new(big.Int).Add(big.NewInt(a), big.NewInt(b)) }
+func bdiff(a, b int64) *big.Int { return new(big.Int).Sub(big.NewInt(a), big.NewInt(b)) }
+func ltSum(t, a, b int64) bool  { return big.NewInt(t).Cmp(bsum(a, b)) < 0 }  // t < a+b
+func geDiff(x, a, b int64) bool { return big.NewInt(x).Cmp(bdiff(a, b)) >= 0 } // x >= a-b
+
 // ---- the documented machine over an event log (reference, independent formulation) ------------------------
 type docEvent struct {
 	stamp int64
@@ -132,7 +142,7 @@ type docEvent struct {
 type docMachine struct {
 	c        brkCfg
 	kind     string // C O H
-	deadline int64
+	deadline *big.Int
 	events   []docEvent
 	curStart int64
 	log      []string
@@ -157,14 +167,14 @@ func (d *docMachine) report(succ bool) {
 		switch {
 		case t < d.curStart:
 			d.events = append(d.events, docEvent{t, succ})
-		case t < d.curStart+d.c.interval:
+		case ltSum(t, d.curStart, d.c.interval):
 			d.events = append(d.events, docEvent{d.curStart, succ})
 		default:
 			// the interval is complete: count what the sliding window holds (this report opens the next interval)
 			var s, f int64
 			kept := d.events[:0:0]
 			for _, e := range d.events {
-				if e.stamp >= t-d.c.window {
+				if geDiff(e.stamp, t, d.c.window) {
 					kept = append(kept, e)
 					if e.succ {
 						s++
@@ -178,7 +188,7 @@ func (d *docMachine) report(succ bool) {
 			total := s + f
 			if !succ && total > 0 && total >= d.c.minReq && float64(f)/float64(total) > d.c.thr {
 				d.kind = "O"
-				d.deadline = d.tk.Tick() + d.c.open
+				d.deadline = bsum(d.tk.Tick(), d.c.open)
 				d.notifyState("O")
 			} else {
 				for i := 0; i < d.c.k; i++ {
@@ -192,7 +202,7 @@ func (d *docMachine) report(succ bool) {
 			d.notifyState("C")
 		} else {
 			d.kind = "O"
-			d.deadline = d.tk.Tick() + d.c.open
+			d.deadline = bsum(d.tk.Tick(), d.c.open)
 			d.notifyState("O")
 		}
 	}
@@ -201,9 +211,9 @@ func (d *docMachine) canRequest() bool {
 	if d.kind == "C" {
 		return true
 	}
-	if d.deadline <= d.tk.Tick() {
+	if d.deadline.Cmp(big.NewInt(d.tk.Tick())) <= 0 {
 		d.kind = "H"
-		d.deadline = d.tk.Tick() + d.c.trial
+		d.deadline = bsum(d.tk.Tick(), d.c.trial)
 		d.notifyState("H")
 		return true
 	}
@@ -233,6 +243,10 @@ func runBreaker(count int, args []string) {
 			}
 		}
 		start := []int64{0, 1000, -500, 1 << 40}[rng.Intn(4)]
+		if len(args) > 0 && args[0] == "wrap" {
+			// known finding F7: ticker values within a few windows of the int64 limits
+			start = []int64{math.MaxInt64 - 3*c.window - int64(rng.Intn(50)), math.MaxInt64 - c.open - int64(rng.Intn(20)), math.MinInt64 + int64(rng.Intn(int(c.window))+1)}[rng.Intn(3)]
+		}
 		ticks := genTicks(2+3*nops, c, start)
 		req := fmt.Sprintf("brk %s %d %d %d %d %d %d ops %s ticks %s", fbits(c.thr), c.minReq, c.trial, c.open, c.window, c.interval, c.k, string(ops), i64s(ticks))
 		impl, mon := execBreaker(c, ops, ticks)
@@ -313,7 +327,11 @@ func runWindow(count int, args []string) {
 		for i := range ops {
 			ops[i] = "ssffc"[rng.Intn(5)]
 		}
-		ticks := genTicks(1+nops, c, []int64{0, 1000, -500}[rng.Intn(3)])
+		wstart := []int64{0, 1000, -500}[rng.Intn(3)]
+		if len(args) > 0 && args[0] == "wrap" {
+			wstart = []int64{math.MaxInt64 - 3*c.window - int64(rng.Intn(50)), math.MinInt64 + int64(rng.Intn(int(c.window)+1)+1)}[rng.Intn(2)]
+		}
+		ticks := genTicks(1+nops, c, wstart)
 		req := fmt.Sprintf("win %d %d ops %s ticks %s", c.window, c.interval, string(ops), i64s(ticks))
 		tk := &scriptTicker{script: ticks}
 		w, err := cbreaker.NewSlidingWindowCounter(tk, time.Duration(c.window), time.Duration(c.interval))
@@ -351,7 +369,7 @@ func runWindow(count int, args []string) {
 				if e != nil && mon == "ok" {
 					mon = fmt.Sprintf("FAIL C10 op #%d: a report while the ticker stepped back returned a count", i+1)
 				}
-			case t < curStart+c.interval:
+			case ltSum(t, curStart, c.interval):
 				events = append(events, docEvent{curStart, op == 's'})
 				if e != nil && mon == "ok" {
 					mon = fmt.Sprintf("FAIL C10 op #%d: a report inside the update interval returned a count", i+1)
@@ -360,7 +378,7 @@ func runWindow(count int, args []string) {
 				var s, f int64
 				kept := events[:0:0]
 				for _, ev := range events {
-					if ev.stamp >= t-c.window {
+					if geDiff(ev.stamp, t, c.window) {
 						kept = append(kept, ev)
 						if ev.succ {
 							s++
